@@ -276,4 +276,7 @@ theorem parallelOverlapDist_sound (s t : P2 × P2) (dist : Rat) (h : parallelOve
     · right; simp only; linarith
     · left; simp only; linarith
 
+-- non-vacuity of `parallelOverlapDist_sound`: two horizontal segments 3 apart whose x-extents overlap on [4, 10]
+example : parallelOverlapDist (⟨0, 0⟩, ⟨10, 0⟩) (⟨4, 3⟩, ⟨20, 3⟩) = some 3 := by decide +kernel
+
 end AdaptaVerif.Props.C10
